@@ -1730,7 +1730,10 @@ def expand_value_lookups(trees: Dict[str, ast.Module], max_rows: int = 12) -> in
         return isinstance(e, (ast.Constant, ast.Name)) or (isinstance(e, ast.Attribute) and _chain(e))
 
     def is_table(v):
-        return isinstance(v, ast.Dict) and 0 < len(v.keys) <= max_rows and all(k is not None and simple(k) for k in v.keys) and all(simple(x) for x in v.values)
+        # tables that choose CODE or enum members (classes, functions, bound methods, members); tables of plain data (file names,
+        # numbers) stay tables - the rules read those as they are
+        return isinstance(v, ast.Dict) and 0 < len(v.keys) <= max_rows and all(k is not None and simple(k) for k in v.keys) \
+            and all(isinstance(x, (ast.Name, ast.Attribute)) and simple(x) for x in v.values)
 
     MUT = ("update", "pop", "popitem", "clear", "setdefault", "__setitem__")
     for mod, t in trees.items():
